@@ -14,13 +14,14 @@ def work(args):
     out = []
     for i in range(n):
         ka, kb = PAIRS[(idx + i) % 8]
-        A, B, cls = G.flat_pair(ka, kb)
-        a, b = interlib.build_pair(impl, A, B)      # primed in-place move / shared-Point decoys for a third of the cases
-        r1 = core.guarded(impl.call, impl.distance, a, b)
-        r2 = core.guarded(impl.call, impl.distance, b, a)
-        r3 = core.guarded(impl.call, lambda x, y: x.distance(y), a, b) if (ka != 'P' or kb == 'P') else None
-        ri = core.guarded(impl.call, impl.intersection, a, b)
-        out.append((A, B, cls, r1, r2, r3, ('ok', ri[1] is None) if ri[0] == 'ok' else ri))
+        A0, B0, cls0 = G.flat_pair(ka, kb)
+        for A, B, cls in [(A0, B0, cls0)] + [(a_, b_, cls0 + '+hash-twin') for a_, b_ in interlib.twin_followups(A0, B0)]:
+            a, b = interlib.build_pair(impl, A, B)      # primed in-place move / shared-Point decoys for a third of the cases
+            r1 = core.guarded(impl.call, impl.distance, a, b)
+            r2 = core.guarded(impl.call, impl.distance, b, a)
+            r3 = core.guarded(impl.call, lambda x, y: x.distance(y), a, b) if (ka != 'P' or kb == 'P') else None
+            ri = core.guarded(impl.call, impl.intersection, a, b)
+            out.append((A, B, cls, r1, r2, r3, ('ok', ri[1] is None) if ri[0] == 'ok' else ri))
     return out
 
 
@@ -80,6 +81,7 @@ def replay(ctx, case):
     from .. import impl
     c = case['case']
     A, B = gen.from_jsonable(c['a']), gen.from_jsonable(c['b'])
+    interlib.replay_preamble(impl, A, B)
     a, b = interlib.build_pair(impl, A, B)
     ml = core.model_lines(['distsq %s %s' % (tok(A), tok(B))])[0]
     d2 = F(ml)
